@@ -254,7 +254,6 @@ fn compute_inner(tree: &mut impl LayoutBlockContainer, node_id: NodeId, inputs: 
     for order in 0..len {
         let child = tree.get_child_id(node_id, order);
         if tree.get_block_child_style(child).box_generation_mode() == BoxGenerationMode::None {
-            tree.set_unrounded_layout(child, &Layout::with_order(order as u32));
             tree.perform_child_layout(
                 child,
                 Size::NONE,
@@ -263,6 +262,9 @@ fn compute_inner(tree: &mut impl LayoutBlockContainer, node_id: NodeId, inputs: 
                 SizingMode::InherentSize,
                 Line::FALSE,
             );
+            // Set the layout *after* the call: a cache miss inside it zeroes the layout (order 0) but a cache hit
+            // does not, so setting it first made `order` depend on the state of the cache
+            tree.set_unrounded_layout(child, &Layout::with_order(order as u32));
         }
     }
 
